@@ -323,6 +323,10 @@ fn expected_smooth_magnitude(
 }
 
 pub fn primes(n: u32) -> Vec<u32> {
+    if n <= 1 {
+        // The loop below only checks the length after pushing an odd prime.
+        return vec![2; n as usize];
+    }
     // The n-th prime is always less than n * n.bit_length()
     // except for n = 1.
     let bound = max(100, n * (32 - n.leading_zeros())) as usize;
